@@ -342,28 +342,38 @@ macro_rules! cast_az_overflowing {
 // all indices are concrete and the model is loop-free (the scans are unrolled over the slots).
 
 pub const UF_CAP: usize = 64;
+/// One seeded call: the per-lane part of the argument tuple (k0, k1) and the value assigned to it.
 #[derive(Clone, Copy)]
-pub struct UfEntry { used: bool, k0: u32, k1: u32, k2: u32, k3: u32, r: u32 }
-pub struct UfTable { n: usize, e: [UfEntry; UF_CAP] }
-pub static mut UF: UfTable = UfTable { n: 0, e: [UfEntry { used: false, k0: 0, k1: 0, k2: 0, k3: 0, r: 0 }; UF_CAP] };
+pub struct UfEntry { used: bool, k0: u32, k1: u32, r: u32 }
+/// (g2, g3) is the lane-independent part of the argument tuple (epsilon and max_relative / max_ulps bits):
+/// it is the same for every seed of a harness (asserted), so it is stored and compared once per call
+/// instead of once per slot.
+pub struct UfTable { n: usize, g2: u32, g3: u32, e: [UfEntry; UF_CAP] }
+pub static mut UF: UfTable = UfTable { n: 0, g2: 0, g3: 0, e: [UfEntry { used: false, k0: 0, k1: 0, r: 0 }; UF_CAP] };
 
 /// Defines a model with capacity `$cap` seeds: `$seed`, `$look` and the four scalar stubs built on `$look`.
-/// (Several capacities only to keep the small harnesses fast.) The scans destructure the table with an
-/// irrefutable array pattern, so they are loop-free and index-free.
+/// (Several capacities only to keep the small harnesses fast.) The scans destructure a by-value copy of
+/// the table with an irrefutable array pattern, so they are loop-free, index-free and pointer-free.
 macro_rules! uf_family {
     ($seed:ident, $look:ident, $inv:ident, $abs:ident, $rel:ident, $ulps:ident, cap $cap:literal, slots($($e:ident)+)) => {
         pub fn $seed(k0: u32, k1: u32, k2: u32, k3: u32) -> u32 {
             unsafe {
                 let n = UF.n;
                 assert!(n < $cap);
+                if n == 0 {
+                    UF.g2 = k2;
+                    UF.g3 = k3;
+                } else {
+                    assert!(UF.g2 == k2 && UF.g3 == k3);
+                }
                 let mut res: u32 = kani::any();
                 {
                     // every earlier seed with bit-identical arguments holds the same value (by induction), so
                     // the scan order is irrelevant
-                    let [$($e),+, ..] = UF.e; // by-value copy: no pointer dereferences in the scan
-                    $( if $e.used && $e.k0 == k0 && $e.k1 == k1 && $e.k2 == k2 && $e.k3 == k3 { res = $e.r; } )+
+                    let [$($e),+, ..] = UF.e;
+                    $( if $e.used && $e.k0 == k0 && $e.k1 == k1 { res = $e.r; } )+
                 }
-                UF.e[n] = UfEntry { used: true, k0, k1, k2, k3, r: res };
+                UF.e[n] = UfEntry { used: true, k0, k1, r: res };
                 UF.n = n + 1;
                 res
             }
@@ -371,8 +381,9 @@ macro_rules! uf_family {
         pub fn $look(k0: u32, k1: u32, k2: u32, k3: u32) -> u32 {
             unsafe {
                 let mut res: u32 = kani::any();
-                let [$($e),+, ..] = UF.e; // by-value copy: no pointer dereferences in the scan
-                $( if $e.used && $e.k0 == k0 && $e.k1 == k1 && $e.k2 == k2 && $e.k3 == k3 { res = $e.r; } )+
+                let g = UF.n > 0 && UF.g2 == k2 && UF.g3 == k3;
+                let [$($e),+, ..] = UF.e;
+                $( if g && $e.used && $e.k0 == k0 && $e.k1 == k1 { res = $e.r; } )+
                 res
             }
         }
